@@ -5,13 +5,11 @@ import (
 	"crypto/ecdsa"
 	"fmt"
 	"math/big"
-	"os"
 	"strings"
 
 	"verifsim/kit"
 	"verifsim/simdisk"
 	"verifsim/worlds/chainkit"
-	"verifsim/worlds/networld"
 	"verifsim/worlds/stakechainworld"
 
 	"github.com/youchainhq/go-youchain/common"
@@ -85,8 +83,9 @@ func (w *world) corruptDecoders() {
 	for i := 0; i < n; i++ {
 		typ := ts[w.c.Intn("corrupt-type", len(ts))]
 		sample := w.pool[typ][w.c.Intn("corrupt-sample", len(w.pool[typ]))]
-		mut, label := networld.Mutate(w.c, sample)
+		mut, label := mutate(w.c, sample)
 		acc := w.corrupt(typ, sample, mut, label)
+		w.r.Logf("  corrupt %s %s -> accepted=%v", typ, label, acc)
 		w.r.FP("corrupt", typ, label, fmt.Sprint(acc))
 	}
 }
@@ -215,7 +214,7 @@ func (w *world) hostileStakingTxs(im *chainkit.Importer) (alive bool) {
 func (w *world) hostileMessage(real []byte) (data []byte, label, name string) {
 	var m staking.Message
 	if err := rlp.DecodeBytes(real, &m); err != nil {
-		mut, l := networld.Mutate(w.c, real)
+		mut, l := mutate(w.c, real)
 		return mut, l, "undecodable"
 	}
 	name = payloadNames[m.Action]
@@ -223,10 +222,10 @@ func (w *world) hostileMessage(real []byte) (data []byte, label, name string) {
 		name = "unknown-action"
 	}
 	if w.c.Chance("hostile-outer", 1, 3) {
-		mut, l := networld.Mutate(w.c, real)
+		mut, l := mutate(w.c, real)
 		return mut, l, name
 	}
-	mut, l := networld.Mutate(w.c, m.Payload)
+	mut, l := mutate(w.c, m.Payload)
 	return mustEnc(&staking.Message{Action: m.Action, Payload: mut}), l + "+payload", name
 }
 
@@ -254,7 +253,7 @@ func (w *world) hostileMessagesInBlocks() {
 		var mut []byte
 		label := ""
 		for try := 0; try < 10; try++ {
-			x, l := networld.Mutate(c, m.Payload)
+			x, l := mutate(c, m.Payload)
 			if bytes.Equal(x, m.Payload) {
 				continue
 			}
@@ -324,7 +323,7 @@ func (w *world) corruptedSlashData(im *chainkit.Importer) (alive bool) {
 		var evs []staking.Evidence
 		if c.Chance("slash-inner", 1, 2) && rlp.DecodeBytes(orig, &evs) == nil && len(evs) > 0 {
 			i := c.Intn("slash-evidence", len(evs))
-			x, l := networld.Mutate(c, evs[i].Data)
+			x, l := mutate(c, evs[i].Data)
 			// a fresh slice of fresh values (Evidence carries caches that must not be copied)
 			out := make([]staking.Evidence, len(evs))
 			for j := range evs {
@@ -333,7 +332,7 @@ func (w *world) corruptedSlashData(im *chainkit.Importer) (alive bool) {
 			out[i].Data = x
 			mut, label = mustEnc(out), l+"+evidence"
 		} else {
-			mut, label = networld.Mutate(c, orig)
+			mut, label = mutate(c, orig)
 		}
 		w.corrupt("slash-data", orig, mut, label)
 		hdr.SlashData = mut
@@ -372,9 +371,6 @@ func (w *world) corruptedSlashData(im *chainkit.Importer) (alive bool) {
 			out = "accepted"
 			if !bytes.Equal(mut, orig) {
 				r.Probe("block-with-corrupted-slash-data-accepted")
-				if os.Getenv("C14CHAIN_DEBUG") != "" {
-					r.Report("debug-slash-accepted", "block %d label %s orig %s mut %s", num, label, hx(orig), hx(mut))
-				}
 			}
 		}
 		r.Count("slash-replay."+out, 1)
@@ -547,17 +543,19 @@ func (w *world) restartsOnCorruptedDisk() {
 		classes := [][]target{nil, valLeaves, chainRecs, accLeaves, stkLeaves}
 		ci := c.Weighted("restart-record-class", []int{1, 6, 4, 3, 2})
 		typ, desc, label := "none", "nothing corrupted (control)", "none"
+		decoderAccepts := true
 		if ci > 0 && len(classes[ci]) == 0 {
 			ci = 0
 		}
 		if ci > 0 {
 			t := classes[ci][c.Intn("restart-record", len(classes[ci]))]
-			mut, l := networld.Mutate(c, t.orig)
+			mut, l := mutate(c, t.orig)
 			for try := 0; try < 4 && bytes.Equal(mut, t.orig); try++ {
-				mut, l = networld.Mutate(c, t.orig)
+				mut, l = mutate(c, t.orig)
 			}
 			typ, desc, label = t.typ, t.desc, l
 			accepted := w.corrupt(t.typ, t.orig, mut, l)
+			decoderAccepts = accepted
 			if err := disk.Put(t.key, t.wrap(mut)); err != nil {
 				panic(err)
 			}
@@ -566,7 +564,7 @@ func (w *world) restartsOnCorruptedDisk() {
 		} else {
 			r.Logf("-- restart control: image of block %d unmodified", head.NumberU64())
 		}
-		out := w.restartAndRead(disk, typ, desc, label, head, last)
+		out := w.restartAndRead(disk, typ, desc, label, decoderAccepts, head, last)
 		r.Logf("  restart outcome: %s", out)
 		r.FP("restart", typ, label, out)
 		r.Count("restart."+strings.SplitN(out, ":", 2)[0], 1)
@@ -578,7 +576,7 @@ func (w *world) restartsOnCorruptedDisk() {
 
 // restartAndRead opens the node and drives the read accessors and one import; it returns a
 // short outcome. Each step runs on a helper goroutine (a logging.Crit ends the step).
-func (w *world) restartAndRead(disk *simdisk.Disk, typ, desc, label string, head, last *types.Block) string {
+func (w *world) restartAndRead(disk *simdisk.Disk, typ, desc, label string, decoderAccepts bool, head, last *types.Block) string {
 	what := fmt.Sprintf("node on the image with the %s corrupted (%s)", desc, label)
 	im, refused := w.openNode(disk, typ, what)
 	if im == nil {
@@ -593,7 +591,15 @@ func (w *world) restartAndRead(disk *simdisk.Disk, typ, desc, label string, head
 		ok, bp := w.h.Do(f)
 		if bp != nil {
 			dead = "panic:" + name
-			w.panicked("corrupted-record-panic:"+typ, bp.Val, bp.Stack, "a verifying node restarted on a disk image in which the %s was corrupted (%s) panics in %s", desc, label, name)
+			// two families, one class per record type: the record's own decoder REFUSES the
+			// corrupted bytes (the reader's error path is what lets the node crash, wherever the
+			// half-read value is used later), or it ACCEPTS them (a well-formed record holding a
+			// different value: the node computes on it). The panicking function is in the detail.
+			fam, verdict := "rejected-record-panic:", "its decoder refuses"
+			if decoderAccepts {
+				fam, verdict = "accepted-record-panic:", "its decoder accepts"
+			}
+			w.panicked(fam+typ, bp.Val, bp.Stack, "a verifying node restarted on a disk image in which the %s was corrupted (%s; %s the corrupted bytes) panics in %s, function %s", desc, label, verdict, name, repoFunc(bp.Stack))
 			return false
 		}
 		if !ok {
